@@ -51,6 +51,13 @@ pub struct Case {
     /// transports the authenticator was configured with: 0 the default, 1 an empty list, 2 usb, 3 internal + hybrid
     #[serde(default)]
     pub transports: u8,
+    /// getAssertion PRF inputs also carry per-credential entries: bit 0 one keyed by a held credential of the RP,
+    /// bit 1 one keyed by an id nobody holds
+    #[serde(default)]
+    pub prf_by_cred: u8,
+    /// makeCredential: length of the user handle (0 = the fixed 12-byte one)
+    #[serde(default)]
+    pub user_len: u8,
 }
 
 fn rp_name(c: &Case, i: u8) -> String {
@@ -120,11 +127,30 @@ fn salts(n: u8) -> AuthenticatorPrfInputs {
     AuthenticatorPrfInputs { eval: (n > 0).then(|| AuthenticatorPrfValues { first: [7u8; 32], second: (n > 1).then_some([8u8; 32]) }), eval_by_credential: None }
 }
 
+/// PRF inputs of an assertion, optionally with per-credential entries
+fn salts_ga(c: &Case) -> AuthenticatorPrfInputs {
+    let mut s = salts(c.prf);
+    if c.prf_by_cred % 4 != 0 {
+        let mut m = std::collections::HashMap::new();
+        if c.prf_by_cred & 1 != 0 {
+            let rp = c.rp % 2;
+            let own: Vec<usize> = (0..c.contents.len()).filter(|k| c.contents[*k].0 % 2 == rp).collect();
+            let id = own.get(c.list_k as usize % own.len().max(1)).map(|k| cred_id(*k)).unwrap_or(b"nothing-held".to_vec());
+            m.insert(passkey_types::Bytes::from(id), AuthenticatorPrfValues { first: [0x21u8; 32], second: Some([0x22u8; 32]) });
+        }
+        if c.prf_by_cred & 2 != 0 {
+            m.insert(passkey_types::Bytes::from(b"c18-id-nobody-holds".to_vec()), AuthenticatorPrfValues { first: [0x23u8; 32], second: None });
+        }
+        s.eval_by_credential = Some(m);
+    }
+    s
+}
+
 fn mc_request(c: &Case) -> make_credential::Request {
     make_credential::Request {
         client_data_hash: vec![1u8; 32].into(),
         rp: make_credential::PublicKeyCredentialRpEntity { id: rp_name(c, c.rp), name: Some("rp".into()) },
-        user: passkey_types::webauthn::PublicKeyCredentialUserEntity { id: b"c18-new-user".to_vec().into(), display_name: "d".into(), name: "n".into() },
+        user: passkey_types::webauthn::PublicKeyCredentialUserEntity { id: if c.user_len == 0 { b"c18-new-user".to_vec() } else { vec![0x75; [1usize, 63, 64, 65, 66, 128, 200, 255][c.user_len as usize % 8]] }.into(), display_name: "d".into(), name: "n".into() },
         pub_key_cred_params: cer::params(if c.algs_supported { &[-257, -7] } else { &[-257] }),
         exclude_list: list(c),
         extensions: (c.prf > 0 || c.hmac_in % 3 > 0).then(|| make_credential::ExtensionInputs { hmac_secret: [None, Some(false), Some(true)][c.hmac_in as usize % 3], hmac_secret_mc: None, prf: (c.prf > 0).then(|| salts(c.prf)) }),
@@ -139,7 +165,7 @@ fn ga_request(c: &Case) -> get_assertion::Request {
         rp_id: rp_name(c, c.rp),
         client_data_hash: vec![2u8; 32].into(),
         allow_list: list(c),
-        extensions: (c.prf > 0).then(|| get_assertion::ExtensionInputs { hmac_secret: None, prf: Some(salts(c.prf)) }),
+        extensions: (c.prf > 0 || c.prf_by_cred % 4 != 0).then(|| get_assertion::ExtensionInputs { hmac_secret: None, prf: Some(salts_ga(c)) }),
         options: get_assertion::Options { rk: c.rk, up: c.up, uv: c.uv },
         pin_auth: c.pin_auth.then(|| vec![1u8; 16].into()),
         pin_protocol: c.pin_auth.then_some(1),
@@ -303,17 +329,19 @@ fn strategy() -> impl Strategy<Value = Case> {
         script,
         (0u8..2, proptest::bool::weighted(0.2), proptest::bool::weighted(0.85), any::<bool>(), proptest::bool::weighted(0.85), proptest::bool::weighted(0.15), 0u8..7, any::<u8>(), 0u8..3),
     )
-        .prop_map(|((op, hmac, counter_cfg, disc), contents, script, (rp, rk, up, uv, algs_supported, pin_auth, list, list_k, prf))| Case { op, hmac, counter_cfg, disc, contents, script, rp, rk, up, uv, algs_supported, pin_auth, list, list_k, prf, rp0: None, faults: vec![], hmac_in: 0, transports: 0 })
+        .prop_map(|((op, hmac, counter_cfg, disc), contents, script, (rp, rk, up, uv, algs_supported, pin_auth, list, list_k, prf))| Case { op, hmac, counter_cfg, disc, contents, script, rp, rk, up, uv, algs_supported, pin_auth, list, list_k, prf, rp0: None, faults: vec![], hmac_in: 0, transports: 0, prf_by_cred: 0, user_len: 0 })
         .prop_flat_map(|c| {
             // RP IDs of any shape and length (the API takes any string), and store calls failing with any status byte
             let ch = prop_oneof![6 => "[a-z0-9.-]", 2 => "[\u{80}-\u{7ff}]", 1 => "[\u{800}-\u{ffff}]", 1 => "[\u{10000}-\u{10ffff}]"];
             let rp0 = proptest::option::weighted(0.35, proptest::collection::vec(ch, 0..70).prop_map(|v| v.concat()));
             let faults = prop_oneof![3 => Just(vec![]), 2 => proptest::collection::vec((0u8..4, prop_oneof![3 => any::<u8>(), 1 => Just(0x2Eu8), 1 => Just(0x38), 1 => Just(0x01)]), 1..3)];
-            (Just(c), rp0, faults, prop_oneof![2 => Just(0u8), 1 => 1u8..3], prop_oneof![2 => Just(0u8), 1 => 1u8..4]).prop_map(|(mut c, rp0, faults, hmac_in, transports)| {
+            (Just(c), rp0, faults, prop_oneof![2 => Just(0u8), 1 => 1u8..3], prop_oneof![2 => Just(0u8), 1 => 1u8..4], prop_oneof![2 => Just(0u8), 1 => 1u8..4], prop_oneof![2 => Just(0u8), 1 => 1u8..9]).prop_map(|(mut c, rp0, faults, hmac_in, transports, prf_by_cred, user_len)| {
                 c.rp0 = rp0;
                 c.faults = faults;
                 c.hmac_in = hmac_in;
                 c.transports = transports;
+                c.prf_by_cred = prf_by_cred;
+                c.user_len = user_len;
                 c
             })
         })
@@ -370,6 +398,8 @@ fn minimise(case: &Case) -> Case {
         Box::new(|c| Case { rp0: None, ..c.clone() }),
         Box::new(|c| Case { hmac_in: 0, ..c.clone() }),
         Box::new(|c| Case { transports: 0, ..c.clone() }),
+        Box::new(|c| Case { prf_by_cred: 0, ..c.clone() }),
+        Box::new(|c| Case { user_len: 0, ..c.clone() }),
         Box::new(|c| Case { contents: vec![], ..c.clone() }),
         Box::new(|c| Case { contents: c.contents.iter().take(1).cloned().collect(), ..c.clone() }),
         Box::new(|c| Case { prf: 0, ..c.clone() }),
@@ -392,7 +422,7 @@ fn minimise(case: &Case) -> Case {
 }
 
 pub fn run(ctx: &mut Ctx) {
-    ctx.rule = "requests for getInfo / makeCredential / getAssertion (valid and failing: unsupported algorithms, rk on a non-discoverable store, pin-auth, up=false, denied or failing user validation, allow/exclude lists that are absent/empty/miss/hit/foreign, PRF requests, an explicit hmac-secret input of false / true with or without a PRF input) on authenticators configured with the default / an empty / other transport lists, with generated store contents (0-4 credentials over two RPs, counters incl. max, with/without user handle and PRF secrets), store capability, hmac-secret configuration and user-validation behaviour, RP IDs that are arbitrary text of 0-70 characters (ASCII and 2/3/4-byte characters), and store calls that fail with any status byte (both sides armed alike); two authenticators are built from the same description, one is driven through <Authenticator as Ctap2Api>, the other through the direct methods, each case in an isolated worker with an 8 MiB stack and CPU watchdog. Non-trivial = makeCredential / getAssertion pairs; distinct by case.".into();
+    ctx.rule = "requests for getInfo / makeCredential / getAssertion (valid and failing: unsupported algorithms, rk on a non-discoverable store, pin-auth, up=false, denied or failing user validation, allow/exclude lists that are absent/empty/miss/hit/foreign, PRF requests, an explicit hmac-secret input of false / true with or without a PRF input, per-credential PRF inputs keyed by a held / an unknown id with and without an allow list, user handles of 1-255 bytes) on authenticators configured with the default / an empty / other transport lists, with generated store contents (0-4 credentials over two RPs, counters incl. max, with/without user handle and PRF secrets), store capability, hmac-secret configuration and user-validation behaviour, RP IDs that are arbitrary text of 0-70 characters (ASCII and 2/3/4-byte characters), and store calls that fail with any status byte (both sides armed alike); two authenticators are built from the same description, one is driven through <Authenticator as Ctap2Api>, the other through the direct methods, each case in an isolated worker with an 8 MiB stack and CPU watchdog. Non-trivial = makeCredential / getAssertion pairs; distinct by case.".into();
     ctx.assumptions = vec![
         "results are compared by status byte (errors), by authenticator data / selected credential / user entity / extension outputs and by signature validity under the stored key (successes; new keys and ids are random so registrations are compared by shape), and by the abstract store state, the user-validation call log and the sequence of store calls".into(),
         "termination: a worker that dies or exceeds 10 s of CPU is attributed to the case it had started".into(),
